@@ -20,36 +20,35 @@ Theorem C12_json_string_std_nul_refuted :
 Proof. exact json_string_std_nul_refuted. Qed.
 Print Assumptions C12_json_string_std_nul_refuted.
 
-(* XML element content: a conformant processor reports the payload unchanged provided the
-   payload has no CR byte ... *)
+(* XML element content: for every string of XML characters (the UTF-8 encoding of any sequence of
+   code points matching production [2] Char - CR, TAB, LF included) a conformant XML 1.0 processor
+   (strict UTF-8 decoding, Char check, references, end-of-line handling 2.11) reports exactly the
+   payload from what lyxml_dump_text() writes. No hypothesis about CR is needed any more: the
+   printer of the current tree writes a CR as the reference &#xD; (commit 6fdbff2). *)
 Theorem C12_xml_text_std :
-  forall s, Forall (fun b => b <> 13) s -> std_xml_text false (xml_esc false s) = Some s.
+  forall cps, xml_chars cps ->
+    std_xml_text false (xml_esc false (flat_map utf8_encode cps)) = Some (flat_map utf8_encode cps).
 Proof. exact xml_content_std_proof. Qed.
 Print Assumptions C12_xml_text_std.
 
-(* ... and in attribute values provided it has no TAB, LF or CR byte *)
+(* ... and the same in attribute values, where the processor also applies attribute-value
+   normalisation (3.3.3): the printer now writes TAB and LF as &#x9; and &#xA; there (commit
+   47fa563), so no hypothesis about TAB, LF or CR is needed *)
 Theorem C12_xml_attr_std :
-  forall s, Forall (fun b => b <> 9 /\ b <> 10 /\ b <> 13) s -> std_xml_text true (xml_esc true s) = Some s.
+  forall cps, xml_chars cps ->
+    std_xml_text true (xml_esc true (flat_map utf8_encode cps)) = Some (flat_map utf8_encode cps).
 Proof. exact xml_attr_std_proof. Qed.
 Print Assumptions C12_xml_attr_std.
 
-(* defect (tag xml-cr): lyxml_dump_text() writes CR raw; the text is well-formed but a
-   conformant processor reports something else (x CR y is reported as x LF y) *)
-Theorem C12_xml_text_std_cr_refuted :
-  exists s, std_xml_text false (xml_esc false s) <> Some s /\
-            exists s', std_xml_text false (xml_esc false s) = Some s'.
-Proof. exact xml_text_std_cr_refuted_proof. Qed.
-Print Assumptions C12_xml_text_std_cr_refuted.
-
-(* defect (tag xml-attr-ws): TAB and LF (and CR LF) in attribute values are written raw and are
-   reported as a space; the witness has no CR, so the content hypothesis does not suffice *)
-Theorem C12_xml_attr_ws_refuted :
-  (exists s, Forall (fun b => b <> 13) s /\ std_xml_text true (xml_esc true s) <> Some s) /\
-  std_xml_text true (xml_esc true [97; 9; 98]) = Some [97; 32; 98] /\
-  std_xml_text true (xml_esc true [97; 10; 98]) = Some [97; 32; 98] /\
-  std_xml_text true (xml_esc true [97; 13; 10; 98]) = Some [97; 32; 98].
-Proof. exact xml_attr_ws_refuted_proof. Qed.
-Print Assumptions C12_xml_attr_ws_refuted.
+(* the hypothesis [xml_chars] cannot be dropped: a character outside Char (U+0001 here) cannot be
+   written in XML 1.0 at all; lyxml_dump_text() writes the byte raw, which is not well-formed.
+   libyang's XML lexer refuses such characters as well, they can only enter through another format
+   or the API. *)
+Theorem C12_xml_text_std_nonchar_refuted :
+  exists cps, forallb is_scalar cps = true /\
+    std_xml_text false (xml_esc false (flat_map utf8_encode cps)) = None.
+Proof. exact xml_text_std_nonchar_refuted_proof. Qed.
+Print Assumptions C12_xml_text_std_nonchar_refuted.
 
 (* finding on the reader side (outside C12 proper, which is about printed output): lyjson_string()
    and the RFC 8259 reader disagree in both directions — it rejects the valid tokens \b and
@@ -74,9 +73,24 @@ Example C12_json_string_std_example :
   std_json_string (json_esc (flat_map utf8_encode cps)) = Some (flat_map utf8_encode cps).
 Proof. exact json_string_std_example. Qed.
 
+(* CR, TAB, LF (alone, paired, leading, trailing), every escape class, the CDATA-section-close
+   sequence, DEL, 2-, 3- and 4-byte characters - as content and as attribute value *)
 Example C12_xml_text_std_example :
-  let s := [97; 38; 60; 62; 34; 39; 9; 10; 32; 93; 93; 62; 195; 169; 240; 159; 152; 128; 1; 127] in
-  xml_std_safe false s /\ std_xml_text false (xml_esc false s) = Some s /\
-  let a := [97; 38; 60; 62; 34; 39; 32; 93; 93; 62; 195; 169] in
-  xml_std_safe true a /\ std_xml_text true (xml_esc true a) = Some a.
+  let cps := [13; 97; 38; 60; 62; 34; 39; 9; 10; 13; 10; 13; 13; 32; 93; 93; 62; 233; 8364; 128512; 127; 65533; 10; 9; 13] in
+  xml_chars cps /\
+  std_xml_text false (xml_esc false (flat_map utf8_encode cps)) = Some (flat_map utf8_encode cps) /\
+  std_xml_text true (xml_esc true (flat_map utf8_encode cps)) = Some (flat_map utf8_encode cps).
 Proof. exact xml_text_std_example. Qed.
+
+(* the former findings xml-cr / xml-attr-ws as positive instances: written raw (first of each pair)
+   the processor reports something else, as printed now it reports the payload *)
+Example C12_xml_text_std_cr_tab_lf_example :
+  xml_esc false [120; 13; 121] = [120; 38; 35; 120; 68; 59; 121] /\
+  std_xml_text false [120; 13; 121] = Some [120; 10; 121] /\
+  std_xml_text false (xml_esc false [120; 13; 121]) = Some [120; 13; 121] /\
+  std_xml_text false (xml_esc false [120; 13; 10; 121]) = Some [120; 13; 10; 121] /\
+  xml_esc true [97; 9; 98; 10; 99; 13; 10] = [97; 38;35;120;57;59; 98; 38;35;120;65;59; 99; 38;35;120;68;59; 38;35;120;65;59] /\
+  std_xml_text true [97; 9; 98; 10; 99; 13; 10] = Some [97; 32; 98; 32; 99; 32] /\
+  std_xml_text true (xml_esc true [97; 9; 98; 10; 99; 13; 10]) = Some [97; 9; 98; 10; 99; 13; 10] /\
+  std_xml_text false (xml_esc false [97; 9; 98; 10; 99]) = Some [97; 9; 98; 10; 99].
+Proof. exact xml_text_std_cr_tab_lf_example. Qed.
